@@ -209,12 +209,17 @@ impl Backend for Rasn {
             });
             let (pdus, warnings): (Vec<TokenStream>, Vec<CompilerError>) =
                 tlds.into_iter().fold((vec![], vec![]), |mut acc, tld| {
+                    let subject = tld.clone();
                     match self.generate_tld(tld) {
                         Ok(s) => {
                             acc.0.push(s);
                             acc
                         }
-                        Err(e) => {
+                        Err(mut e) => {
+                            // a warning always names the definition it is about
+                            if e.top_level_declaration.is_none() {
+                                e.top_level_declaration = Some(Box::new(subject));
+                            }
                             acc.1.push(e.into());
                             acc
                         }
